@@ -167,6 +167,8 @@ def rule_unw(ctx, rep, rule="R-UNW", da=False, scope=None):
             key = b["key"]
             cls, exp = sig_class(F, b)
             base = exp if cls == "DROP-IMPL" else 0
+            if cls == "RAW-IN" and ("output" not in b or F.tokens(b["output"])[0] == 0):
+                base = exp  # a raw release (`RefCnt::dec(ptr)`): the unit it gives back is given back on the unwinding exit too (a panicking payload destructor)
             raw_k = None
             if cls == "RAW-COUNT":
                 ks = set(imbalance(p.vec) for p in A.paths[key] if p.exit == "ret")
